@@ -439,6 +439,11 @@ pub fn c04_run(case: &C04Case, base: &Base, path: &str, prefix: &[u8], policy: R
         }
     }
     drop(o);
+    // the threads have dropped their clones of the handle; this one is still open, so the file lock
+    // that keeps other openers out must still be held
+    if res.deadlock.is_none() && res.diverged.is_none() && real::file_lock_is_held(path) == Some(false) {
+        js.push(Judgement { class: "lock_lost_while_handle_open".into(), detail: "after the threads dropped their clones of the database handle the file lock is no longer held although a handle is still open (another opener would get in)".into() });
+    }
     drop(db);
     // the file after the whole run must hold the last state
     if res.deadlock.is_none() && res.diverged.is_none() && js.is_empty() {
